@@ -5,11 +5,11 @@ wt="$1"; id="$2"; out=/verif/seeded/$id
 mkdir -p "$out"
 cp "$wt/seeded_out/patch.diff" "$wt/seeded_out/demo.py" "$wt/seeded_out/meta.json" "$out/"
 cd "$wt"
-git stash -q || true
+
 git checkout -q -- . ; git status --short | grep -v seeded_out || true
 echo "-- demo on clean tree:"; (cd seeded_out && PYTHONPATH=$wt/src timeout 300 /venv/bin/python demo.py >/tmp/demo_clean.txt 2>&1; echo "rc=$?"; tail -2 /tmp/demo_clean.txt | cut -c1-300)
 git apply "$out/patch.diff"
 echo "-- demo with change:"; (cd seeded_out && PYTHONPATH=$wt/src timeout 300 /venv/bin/python demo.py >/tmp/demo_mut.txt 2>&1; echo "rc=$?"; tail -2 /tmp/demo_mut.txt | cut -c1-300)
 echo "-- tests with change:"; PYTHONPATH=$wt/src timeout 1800 /venv/bin/python -m pytest -q -p no:cacheprovider tests 2>&1 | tail -2
 git checkout -q -- .
-git stash drop -q 2>/dev/null || true
+
